@@ -21,6 +21,7 @@ import (
 	"os"
 	"path"
 	"slices"
+	"strings"
 	"sync"
 	"time"
 
@@ -81,6 +82,12 @@ func (lm *levelManager) recover() int64 {
 	for _, file := range files {
 		if !file.IsDir() && path.Ext(file.Name()) == ".db" {
 			dbFiles = append(dbFiles, file.Name())
+		}
+		// a table that was being written when the process died: never published, drop it
+		if !file.IsDir() && strings.HasSuffix(file.Name(), ".db.tmp") {
+			if err = os.Remove(path.Join(lm.dir, file.Name())); err != nil {
+				lm.logger.Warnf("failed to remove unfinished sstable %s: %v", file.Name(), err)
+			}
 		}
 	}
 
@@ -282,29 +289,39 @@ func (lm *levelManager) flushToL0(kvs []types.Entry) error {
 	lm.levels[0].PushBack(th)
 
 	// file name format: level-idx.db
-	fd, err := os.OpenFile(lm.fileName(0, th.levelIdx), os.O_CREATE|os.O_RDWR|os.O_TRUNC, 0600)
+	return lm.writeTable(0, th.levelIdx, tableBytes)
+}
+
+// writeTable publishes a table file atomically: the bytes go to a temporary file that is
+// synced before it is renamed to its final name, so a crash leaves either no table or a
+// complete one - never a partly written *.db file that recovery would trip over.
+func (lm *levelManager) writeTable(level, idx int, tableBytes []byte) error {
+	name := lm.fileName(level, idx)
+	tmp := name + ".tmp"
+
+	fd, err := os.OpenFile(tmp, os.O_CREATE|os.O_RDWR|os.O_TRUNC, 0600)
 	if err != nil {
 		return err
 	}
-	defer func() {
-		if err = fd.Close(); err != nil {
-			lm.logger.Errorf("failed to close file: %v", err)
-		}
-	}()
 
 	// write sstable
-	_, err = fd.Write(tableBytes)
-	if err != nil {
+	if _, err = fd.Write(tableBytes); err != nil {
+		_ = fd.Close()
 		return err
 	}
 
 	// os sync
 	if err = fd.Sync(); err != nil {
 		lm.logger.Errorf("failed to sync file: %v", err)
+		_ = fd.Close()
 		return err
 	}
 
-	return nil
+	if err = fd.Close(); err != nil {
+		return err
+	}
+
+	return os.Rename(tmp, name)
 }
 
 func (lm *levelManager) checkAndCompact() {
@@ -445,18 +462,7 @@ func (lm *levelManager) compactL0() {
 	}
 
 	// write new sstable
-	fd, err := os.OpenFile(lm.fileName(1, th.levelIdx), os.O_CREATE|os.O_RDWR|os.O_TRUNC, 0600)
-	if err != nil {
-		lm.logger.Panicf("failed to open sstable: %v", err)
-	}
-	defer func() {
-		if err = fd.Close(); err != nil {
-			lm.logger.Errorf("failed to close file: %v", err)
-		}
-	}()
-
-	_, err = fd.Write(tableBytes)
-	if err != nil {
+	if err := lm.writeTable(1, th.levelIdx, tableBytes); err != nil {
 		lm.logger.Panicf("failed to write sstable: %v", err)
 	}
 }
@@ -528,18 +534,7 @@ func (lm *levelManager) compactLN(n int) {
 	}
 
 	// write new sstable
-	fd, err := os.OpenFile(lm.fileName(n+1, th.levelIdx), os.O_CREATE|os.O_RDWR|os.O_TRUNC, 0600)
-	if err != nil {
-		lm.logger.Panicf("failed to open sstable: %v", err)
-	}
-	defer func() {
-		if err = fd.Close(); err != nil {
-			lm.logger.Errorf("failed to close file: %v", err)
-		}
-	}()
-
-	_, err = fd.Write(tableBytes)
-	if err != nil {
+	if err := lm.writeTable(n+1, th.levelIdx, tableBytes); err != nil {
 		lm.logger.Panicf("failed to write sstable: %v", err)
 	}
 }
